@@ -19,6 +19,6 @@ Theorem k_jitunion_isets_safe : forall args, Pre_jitunion_isets args ->
   forall fuel, safe_outcome (run fuel k_jitunion_isets args).
 Proof.
   intros args (d1 & d2 & s & e & -> & H) fuel.
-  safe_start k_jitunion_isets ann_jitunion_isets. vc.
+  safe_start k_jitunion_isets ann_jitunion_isets. vc k_jitunion_isets ann_jitunion_isets.
   all: try (rewrite <- ?H; apply idx_ok_argsort).
 Qed.
